@@ -5,6 +5,7 @@ from ..model import AnalysisError, body_nodes
 from ..facts import facts_at
 from ..dataflow import defs_reaching
 from .shared import yields_of, row_index_of, enclosing_loop
+from ..pattern import pmatch, pstmt, text, find
 
 EXPLANATION = (
     "Structural necessary conditions of rbind, select, unselect, rename, cbind, update, modify and colnames assignment decided "
@@ -49,34 +50,75 @@ def check(ctx):
            "colnames setter no longer pops and re-stores the columns", nontrivial=False)
     # ---------------------------------------------------------------- ORD-2
     rb = repo.fn(f"{DF}.rbind")
-    dfs = [n for n in body_nodes(rb.node) if isinstance(n, ast.Assign) and norm(n.targets[0]) == "data_frames"]
-    ok = len(dfs) == 1 and norm(dfs[0].value) == f"[{rb.params[0]}] + list({rb.vararg})"
-    ctx.ob("ORD-2", rb, "; ".join(norm(d) for d in dfs) or "data_frames = ...", dfs[0] if dfs else rb.node, ok,
+    R, OTH = rb.params[0], rb.vararg
+    stm = sorted((n for n in body_nodes(rb.node) if isinstance(n, ast.stmt)), key=lambda n: n.lineno)
+
+    def first(fn_stmts, pattern, env=None):
+        for n in fn_stmts:
+            bb = pstmt(pattern, n, dict(env or {}))
+            if bb is not None:
+                return n, bb
+        return None, None
+    sdf, bdf = first(stm, f"_FS = [{R}] + list({OTH})")
+    FS = bdf["_FS"] if bdf else None
+    rebound = [n for n in stm if isinstance(n, ast.Assign) and FS is not None and any(text(t) == text(FS) for t in n.targets)]
+    ok = bdf is not None and len(rebound) == 1
+    ctx.ob("ORD-2", rb, "; ".join(text(d) for d in rebound) or "data_frames = [self] + list(others)", sdf or rb.node, ok,
            "every input takes part, receiver first, then the arguments in order" if ok else
            "the list of inputs is filtered, reordered or rebuilt: an input (e.g. one with zero rows) no longer contributes its "
            "columns, or rows come in another order", clause="rbind stacks frames in argument order; union of the columns")
-    cn = [n for n in body_nodes(rb.node) if isinstance(n, ast.Assign) and norm(n.targets[0]) == "colnames"]
-    ok = len(cn) == 1 and (norm(cn[0].value) == "util.unique_keys(itertools.chain(*data_frames))" or
-                          ("dict.fromkeys" in norm(cn[0].value) and "data_frames" in norm(cn[0].value)))
+    if FS is None:
+        # fall back to whatever list the parts are taken from, so the remaining rules can still speak
+        cands = [n for n in stm if isinstance(n, ast.Assign) and isinstance(n.targets[0], ast.Name) and R in text(n.value) and OTH in text(n.value)]
+        if not cands:
+            raise AnalysisError("DataFrame.rbind: cannot identify the list of input frames")
+        FS = cands[-1].targets[0]
+    env = {"_FS": FS}
+    scn, bcn = first(stm, "_CN = util.unique_keys(itertools.chain(*_FS))", env)
+    if bcn is None:
+        scn, bcn = first(stm, "_CN = list(dict.fromkeys(itertools.chain(*_FS)))", env)
     uk = repo.fn("dataiter.util.unique_keys")
-    uk_ok = any(norm(r.value) == f"list(dict.fromkeys({uk.params[0]}))" for r in body_nodes(uk.node) if isinstance(r, ast.Return))
-    ctx.ob("ORD-2", rb, norm(cn[0]) if cn else "colnames = ...", cn[0] if cn else rb.node, ok and uk_ok,
-           "union of the column names in first-seen order" if (ok and uk_ok) else
+    uk_ok = any(pmatch(f"list(dict.fromkeys({uk.params[0]}))", r.value) is not None for r in body_nodes(uk.node) if isinstance(r, ast.Return))
+    ok = bcn is not None and uk_ok
+    ctx.ob("ORD-2", rb, text(scn) if scn else "colnames = util.unique_keys(itertools.chain(*data_frames))", scn or rb.node, ok,
+           "union of the column names in first-seen order" if ok else
            "the union of names is not an order-preserving de-duplication over all inputs (a set loses the order)",
            clause="the union of the columns in first-seen order")
-    parts = [n for n in body_nodes(rb.node) if isinstance(n, ast.Assign) and norm(n.targets[0]) == "parts"]
-    ok = len(parts) == 1 and norm(parts[0].value) == "[get_part(x, colname) for x in data_frames]"
-    ctx.ob("ORD-2", rb, norm(parts[0]) if parts else "parts = ...", parts[0] if parts else rb.node, ok,
-           "one part per input, in input order" if ok else "parts are not taken one per input in input order",
-           clause="each input's rows are recoverable by position")
-    ys = yields_of(rb)
-    tot = [n for n in body_nodes(rb.node) if isinstance(n, ast.Assign) and norm(n.targets[0]) == "total"]
-    ok = bool(ys) and bool(tot) and "np.concatenate(parts)" in norm(tot[0].value) and norm(ys[0].value) == "(colname, total)"
-    ctx.ob("ORD-2", rb, norm(tot[0]) if tot else "total = concatenate(parts)", tot[0] if tot else rb.node, ok,
-           "parts are stacked in order" if ok else "column is not the concatenation of the parts", nontrivial=False)
     gp = rb.nested.get("get_part")
     if gp is None:
         raise AnalysisError("anchor vanished: rbind.get_part")
+    ys = yields_of(rb)
+    ok = False
+    node = rb.node
+    if ys and bcn is not None:
+        y = ys[0]
+        loop = enclosing_loop(rb, y)
+        if loop is not None and text(loop.iter) == text(bcn["_CN"]) and isinstance(y.value, ast.Tuple) and len(y.value.elts) == 2 \
+                and text(y.value.elts[0]) == text(loop.target):
+            cn = text(loop.target)
+            # the yielded column is (a DataFrameColumn of) the concatenation of one part per input, in input order
+            val = y.value.elts[1]
+            exprs = [val]
+            if isinstance(val, ast.Name):
+                exprs = [d.value for d in defs_reaching(rb, val.id, y) if d.value is not None]
+            good = bool(exprs)
+            for e in exprs:
+                cc = [c for c in ast.walk(e) if isinstance(c, ast.Call) and repo.dotted(rb, c.func) == "numpy.concatenate"]
+                if not cc:
+                    good = False
+                    continue
+                parts = cc[0].args[0]
+                pex = [parts]
+                if isinstance(parts, ast.Name):
+                    pex = [d.value for d in defs_reaching(rb, parts.id, y) if d.value is not None]
+                if not all(pmatch(f"[get_part(_X, {cn}) for _X in _FS]", pe, env) is not None for pe in pex):
+                    good = False
+            ok = good
+            node = y
+    ctx.ob("ORD-2", rb, "column = concatenate([get_part(x, colname) for x in data_frames]) for every name of the union", node, ok,
+           "one part per input, in input order, stacked in that order, for every name of the union" if ok else
+           "a column of the result is not the concatenation of one part per input in input order",
+           clause="each input's rows are recoverable by position")
     vals = {norm(n.value) for n in body_nodes(gp.node) if isinstance(n, ast.Attribute) and n.attr == "na_value"}
     dts = {norm(n.value) for n in body_nodes(gp.node) if isinstance(n, ast.Attribute) and n.attr == "na_dtype"}
     ok = vals == dts and len(vals) == 1
@@ -88,10 +130,10 @@ def check(ctx):
     ctx.ob("ORD-2", gp, norm(reps[0]) if reps else "repeat(data.nrow)", reps[0] if reps else gp.node, ok,
            "an input lacking the column contributes exactly its own number of rows" if ok else
            "the synthesised part does not have the lacking input's row count", clause="the sum of the row counts")
-    first = [n for n in gp.node.body if isinstance(n, ast.If)]
-    ok = bool(first) and norm(first[0].test) == f"{gp.params[1]} in {gp.params[0]}" and any(
-        isinstance(r, ast.Return) and norm(r.value) == f"{gp.params[0]}[{gp.params[1]}]" for r in first[0].body)
-    ctx.ob("ORD-2", gp, "existing column is used as is", first[0] if first else gp.node, ok,
+    first_if = [n for n in gp.node.body if isinstance(n, ast.If)]
+    ok = bool(first_if) and norm(first_if[0].test) == f"{gp.params[1]} in {gp.params[0]}" and any(
+        isinstance(r, ast.Return) and norm(r.value) == f"{gp.params[0]}[{gp.params[1]}]" for r in first_if[0].body)
+    ctx.ob("ORD-2", gp, "existing column is used as is", first_if[0] if first_if else gp.node, ok,
            "an input that has the column contributes it unchanged" if ok else "an existing column is not used as is", nontrivial=False)
     # ----------------------------------------------------------------- NAME
     sel = repo.fn(f"{DF}.select")
@@ -106,13 +148,22 @@ def check(ctx):
     ren = repo.fn(f"{DF}.rename")
     ys = yields_of(ren)
     loop = enclosing_loop(ren, ys[0]) if ys else None
-    inv = [n for n in body_nodes(ren.node) if isinstance(n, ast.Assign) and isinstance(n.value, ast.DictComp)]
-    ok_inv = bool(inv) and norm(inv[0].value) == f"{{v: k for k, v in {ren.kwarg}.items()}}"
-    to = [n for n in body_nodes(ren.node) if isinstance(n, ast.Assign) and isinstance(n.value, ast.Call)
-          and isinstance(n.value.func, ast.Attribute) and n.value.func.attr == "get"]
-    ok = len(ys) == 1 and loop is not None and norm(loop.iter) == f"{ren.params[0]}.colnames" and ok_inv and bool(to) and \
-        [norm(a) for a in to[0].value.args] == [norm(loop.target), norm(loop.target)] and \
-        norm(ys[0].value) == f"({norm(to[0].targets[0])}, {ren.params[0]}[{norm(loop.target)}].copy())"
+    ok = False
+    if len(ys) == 1 and loop is not None and norm(loop.iter) == f"{ren.params[0]}.colnames":
+        fm = text(loop.target)
+        by = pmatch(f"(_TO, {ren.params[0]}[{fm}].copy())", ys[0].value)
+        if by is not None and isinstance(by["_TO"], ast.Name):
+            tds = [d.value for d in defs_reaching(ren, by["_TO"].id, ys[0]) if d.value is not None]
+            good = bool(tds)
+            for tv in tds:
+                bg = pmatch(f"_M.get({fm}, {fm})", tv)
+                if bg is None or not isinstance(bg["_M"], ast.Name):
+                    good = False
+                    continue
+                mds = [d.value for d in defs_reaching(ren, bg["_M"].id, ys[0]) if d.value is not None]
+                if not (mds and all(pmatch(f"{{_V: _K for _K, _V in {ren.kwarg}.items()}}", mv) is not None for mv in mds)):
+                    good = False
+            ok = good
     ctx.ob("NAME", ren, norm(ys[0].value) if ys else "rename", ys[0] if ys else ren.node, ok,
            "every column keeps its position and values; only names with an entry in the to=from map change" if ok else
            "rename does not yield (new-or-same name, self[old name]) for every column in order",
@@ -131,15 +182,19 @@ def check(ctx):
     cb = repo.fn(f"{DF}.cbind")
     ys = yields_of(cb)
     facts = facts_at(cb, ys[0]) if ys else set()
-    seen_guard = [n for n in body_nodes(cb.node) if isinstance(n, ast.If) and " in found_colnames" in norm(n.test)
+    seen_guard = [n for n in body_nodes(cb.node) if isinstance(n, ast.If) and pmatch("_C in _SEEN", n.test) is not None
                   and any(isinstance(x, ast.Continue) for x in n.body)]
-    adds = [c for _, c in calls_in(cb) if isinstance(c.func, ast.Attribute) and c.func.attr == "add" and norm(c.func.value) == "found_colnames"]
-    ok = bool(seen_guard) and bool(adds) and bool(ys) and seen_guard[0].lineno < adds[0].lineno < ys[0].lineno
+    adds = []
+    if seen_guard:
+        bsg = pmatch("_C in _SEEN", seen_guard[0].test)
+        adds = [c for _, c in calls_in(cb) if pmatch("_SEEN.add(_C)", c, bsg) is not None]
+    ok = bool(seen_guard) and bool(adds) and bool(ys) and seen_guard[0].lineno < adds[0].lineno < ys[0].lineno \
+        and isinstance(ys[0].value, ast.Tuple) and text(ys[0].value.elts[0]) == text(pmatch("_C in _SEEN", seen_guard[0].test)["_C"])
     ctx.ob("DUP", cb, "skip names already seen; record; yield", seen_guard[0] if seen_guard else cb.node, ok,
            "the first column of a name wins" if ok else "cbind does not keep the first of duplicate names",
            clause="cbind keeping the first of duplicate names")
-    dfs = [n for n in body_nodes(cb.node) if isinstance(n, ast.Assign) and norm(n.targets[0]) == "data_frames"]
-    ok = len(dfs) == 1 and norm(dfs[0].value) == f"[{cb.params[0]}] + list({cb.vararg})"
+    dfs = [n for n in body_nodes(cb.node) if isinstance(n, ast.Assign) and pmatch(f"[{cb.params[0]}] + list({cb.vararg})", n.value) is not None]
+    ok = len(dfs) == 1
     ctx.ob("DUP", cb, norm(dfs[0]) if dfs else "data_frames", dfs[0] if dfs else cb.node, ok, "receiver first, then the arguments in order" if ok else
            "cbind does not iterate [self] + list(others)", nontrivial=False)
     up = repo.fn(f"{DF}.update")
@@ -156,7 +211,8 @@ def check(ctx):
     md = repo.fn(f"{DF}.modify")
     ys = sorted(yields_of(md), key=lambda y: y.lineno)
     ok = bool(ys) and enclosing_loop(md, ys[0]) is not None and norm(enclosing_loop(md, ys[0]).iter) == f"{md.params[0]}.items()" \
-        and norm(ys[0].value) == "(colname, column.copy())" and md.node.body.index(_top_stmt(md, ys[0])) == min(
+        and pmatch("(_N, _C.copy())", ys[0].value) is not None and [text(e) for e in enclosing_loop(md, ys[0]).target.elts] == \
+        [text(pmatch("(_N, _C.copy())", ys[0].value)["_N"]), text(pmatch("(_N, _C.copy())", ys[0].value)["_C"])] and md.node.body.index(_top_stmt(md, ys[0])) == min(
             md.node.body.index(_top_stmt(md, y)) for y in ys)
     ctx.ob("DUP", md, "own columns first, then the new ones", ys[0] if ys else md.node, ok,
            "existing columns keep their position; a same-named new column replaces the value" if ok else
@@ -170,7 +226,12 @@ def check(ctx):
             v = y.value.elts[1]
             colexpr, idx, op = row_index_of(v)
             src = norm(colexpr)
-            own = src == "column" or src.startswith(f"{fn.params[0]}[")
+            lp = enclosing_loop(fn, y)
+            loopval = None
+            if lp is not None and isinstance(lp, ast.For) and isinstance(lp.target, ast.Tuple) and len(lp.target.elts) == 2 \
+                    and norm(lp.iter) == f"{fn.params[0]}.items()":
+                loopval = norm(lp.target.elts[1])
+            own = (loopval is not None and src == loopval) or src.startswith(f"{fn.params[0]}[")
             if not own or "restore_indices" in norm(v) or "reconcile" in norm(v):
                 continue
             if name == "left_join" and "new" in norm(v):
